@@ -14,6 +14,8 @@ LEVELS = {
     "C08": "other",
     "C11": "other",
     "C20": "other",
+    "C16": "other",
+    "C17": "other",
 }
 EXPLAIN = {}
 TRUSTED = [
